@@ -42,6 +42,109 @@ var files = []genFile{
 			},
 		}},
 	},
+	{
+		Name: "Restart",
+		Funcs: []*FuncSpec{
+			{
+				File: "src/app/process.go", Recv: "Process", Name: "isRestartable",
+				LeanName: "isRestartable",
+				LeanSig:  "(policy : String) (maxRestarts restarts code : Int) (stopped : Bool) : Bool",
+				Subst: map[string]string{
+					"p.getExitCode()":                      "code",
+					"p.isStopped.Swap(false)":              "stopped",
+					"p.procConf.RestartPolicy.Restart":     "policy",
+					"p.procConf.RestartPolicy.MaxRestarts": "maxRestarts",
+					"p.procState.Restarts":                 "restarts",
+				},
+				Consts: map[string][2]string{
+					"types.RestartPolicyNo":            {"src/types/process.go", "RestartPolicyNo"},
+					"types.RestartPolicyAlways":        {"src/types/process.go", "RestartPolicyAlways"},
+					"types.RestartPolicyOnFailure":     {"src/types/process.go", "RestartPolicyOnFailure"},
+					"types.RestartPolicyExitOnFailure": {"src/types/process.go", "RestartPolicyExitOnFailure"},
+				},
+				Ignore: []string{"p.Lock()", "p.Unlock()"},
+				Ret:    "decide (%s)",
+			},
+			{
+				File: "src/app/process.go", Recv: "Process", Name: "getBackoff",
+				LeanName: "getBackoffSeconds",
+				LeanSig:  "(backoffSeconds : Int) : Int",
+				Subst: map[string]string{
+					"p.procConf.RestartPolicy.BackoffSeconds": "backoffSeconds",
+					"time.Duration(backoff) * time.Second":    "backoff",
+				},
+				Ignore: []string{"if d, ok := verifBackoff(p)"},
+			},
+		},
+	},
+	{
+		Name: "Probe", Imports: []string{"PC.Go.Atoi", "PC.Model.ProbeTypes"}, Opens: []string{"PC.Go", "PC.Probe"},
+		Funcs: []*FuncSpec{
+			{
+				File: "src/health/probe.go", Recv: "Probe", Name: "ValidateAndSetDefaults",
+				LeanName: "validateAndSetDefaults",
+				LeanSig:  "(p : ProbeNums) : ProbeNums",
+				Fields: map[string]string{
+					"p.InitialDelay": "p.initialDelay", "p.PeriodSeconds": "p.periodSeconds", "p.TimeoutSeconds": "p.timeoutSeconds",
+					"p.SuccessThreshold": "p.successThreshold", "p.FailureThreshold": "p.failureThreshold",
+				},
+				Subst: map[string]string{
+					"p.InitialDelay": "p.initialDelay", "p.PeriodSeconds": "p.periodSeconds", "p.TimeoutSeconds": "p.timeoutSeconds",
+					"p.SuccessThreshold": "p.successThreshold", "p.FailureThreshold": "p.failureThreshold",
+				},
+				Ignore: []string{"if p.HttpGet != nil"},
+				Final:  "p",
+			},
+			{
+				File: "src/health/probe.go", Recv: "HttpProbe", Name: "validateAndSetHttpDefaults",
+				LeanName: "httpNumPort",
+				LeanSig:  "(port : String) (numPort : Int) : Int",
+				Fields:   map[string]string{"p.NumPort": "numPort"},
+				Subst: map[string]string{
+					"p.NumPort": "numPort", "p.Port": "port", "strconv.Atoi(p.Port)": "(atoi port).1",
+				},
+				Ignore: []string{"if len(strings.TrimSpace("},
+				Final:  "numPort",
+			},
+			{
+				File: "src/health/health_checks.go", Recv: "Prober", Name: "healthCheckCompleted",
+				LeanName: "healthCheckCompleted",
+				LeanSig:  "(failureThreshold contiguousFailures : Int) (status : String) (stopped : Bool) : Option (Bool × Bool)",
+				Subst: map[string]string{
+					"state.ContiguousFailures":        "contiguousFailures",
+					"int64(p.probe.FailureThreshold)": "failureThreshold",
+					"state.Status":                    "status",
+					"p.stopped.Load()":                "stopped",
+				},
+				Consts: map[string][2]string{"OK": {"src/health/health_checks.go", "OK"}},
+				Calls:  map[string]string{"p.onCheckEndFunc(ok, fatal, state.Err)": "some (ok, fatal)"},
+				Final:  "none",
+			},
+		},
+	},
+	{
+		Name: "Stop", Imports: []string{"PC.Model.StopTypes"}, Opens: []string{"PC.Stop"},
+		Consts: []constSpec{
+			{"src/command/stopper_unix.go", "min_sig", "minSig", "Int"},
+			{"src/command/stopper_unix.go", "max_sig", "maxSig", "Int"},
+			{"src/app/process.go", "UndefinedShutdownTimeoutSec", "undefinedShutdownTimeoutSec", "Int"},
+			{"src/app/process.go", "DefaultShutdownTimeoutSec", "defaultShutdownTimeoutSec", "Int"},
+		},
+		Funcs: []*FuncSpec{
+			{
+				File: "src/command/stopper_unix.go", Recv: "CmdWrapper", Name: "Stop",
+				LeanName: "cmdStop",
+				LeanSig:  "(noCmd : Bool) (sig : Int) (parentOnly pgidOk : Bool) : SigAction",
+				Subst: map[string]string{
+					"c.cmd == nil": "noCmd", "int(syscall.SIGTERM)": "15", "min_sig": "minSig", "max_sig": "maxSig",
+					"c.cmd.Process.Signal(syscall.Signal(sig))": "SigAction.parent sig",
+					"syscall.Kill(-pgid, syscall.Signal(sig))":  "SigAction.group sig",
+					"nil": "SigAction.nothing", "err": "SigAction.pgidErr", "err == nil": "pgidOk",
+				},
+				Ignore: []string{"log.", "pgid, err := syscall.Getpgid("},
+			},
+		},
+	},
 }
 
 // constValue finds `const name = <literal>` (possibly inside a const block) in a file.
